@@ -117,7 +117,8 @@ CONFIGS = [
     Cfg("f3-m1-any", consts(3, 1, NOTTL, False, 2, 4, 6, 0, "ok fail cancel", at="any"), tiers=T,
         mode="check", workers=8, timeout=3000),
     Cfg("f3-m2", consts(3, 2, NOTTL, False, 3, 3, 6, 0, "ok fail", warm=1), tiers=T, cap=2000),
-    Cfg("lru-m2-x", consts(3, 2, NOTTL, False, 3, 4, 6, 0, "ok fail", warm=2), tiers=T, cap=2000),
+    Cfg("lru-m2-x", consts(3, 2, NOTTL, False, 3, 4, 6, 0, "ok fail", warm=2), tiers=T, mode="check",
+        workers=6, timeout=3000),
     Cfg("flight-x", consts(4, NOMAX, NOTTL, False, 1, 4, 7, 0, "ok fail cancel"), tiers=T, cap=2000,
         argmode="mixed"),
     Cfg("ttl-m1", consts(3, 1, 1, False, 2, 3, 6, 2, "ok fail", warm=1), tiers=T, cap=2000),
